@@ -106,6 +106,20 @@ func c20Hosts() []c20Host {
 			return ""
 		}})
 	}
+	// values of the running clock: they carry a monotonic reading next to the wall time
+	now := time.Now()
+	for k, x := range []time.Time{now, now.Add(time.Hour), now.In(time.FixedZone("Y", -7200))} {
+		x := x
+		hs = append(hs, c20Host{[]string{"time.Now()", "time.Now().Add(1h)", "time.Now().In(zone)"}[k] + " (with its monotonic clock reading)", func() interface{} { return x }, variants.DateTime, func(v *variants.Variant, _ interface{}) string {
+			if v.AsDateTime() != x {
+				return "AsDateTime differs from the value given (compared with ==; the wall times are Equal: " + fmt.Sprint(v.AsDateTime().Equal(x)) + ")"
+			}
+			if o, ok := v.AsObject().(time.Time); !ok || o != x {
+				return "AsObject differs from the value given"
+			}
+			return ""
+		}})
+	}
 	for _, x := range []time.Duration{0, time.Millisecond, -time.Hour} {
 		x := x
 		hs = append(hs, c20Host{fmt.Sprintf("time.Duration(%v)", x), func() interface{} { return x }, variants.TimeSpan, func(v *variants.Variant, _ interface{}) string {
